@@ -2,6 +2,7 @@ pub mod c01;
 pub mod c02;
 pub mod c03;
 pub mod c04;
+pub mod c05;
 pub mod c06;
 pub mod c07;
 pub mod c08;
@@ -21,6 +22,7 @@ pub fn dispatch(ctx: &Ctx) -> Option<i32> {
         "C02" => c02_check(ctx),
         "C03" => c03_check(ctx),
         "C04" => c04_check(ctx),
+        "C05" => c05_check(ctx),
         "C06" => c06_check(ctx),
         "C11" => c11_check(ctx),
         "C13" => c13_check(ctx),
@@ -382,7 +384,7 @@ fn c16_check(ctx: &Ctx) -> i32 {
 fn c11_check(ctx: &Ctx) -> i32 {
     let budget = Duration::from_secs(ctx.tier.pick(30, 300));
     let cases = Arc::new(c11::enumerate());
-    let reps = ctx.tier.pick(12u64, 600);
+    let reps = ctx.tier.pick(60u64, 1500);
     let n = cases.len() as u64 * reps;
     let c2 = cases.clone();
     let agg = shard_runs(ctx, "main", n, budget, Duration::from_secs(30), Arc::new(move |run, seed| {
@@ -400,6 +402,23 @@ fn c11_check(ctx: &Ctx) -> i32 {
         exhaustive: false,
         min_nontrivial: ctx.tier.pick(1000, 10000),
         extra,
+    };
+    finish(ctx, agg, rep)
+}
+
+fn c05_check(ctx: &Ctx) -> i32 {
+    let budget = Duration::from_secs(ctx.tier.pick(30, 360));
+    let mut agg = shard_runs(ctx, "main", ctx.tier.pick(8_000, 600_000), budget, Duration::from_secs(30), Arc::new(c05::run_one));
+    let agg2 = shard_runs(ctx, "interlock", ctx.tier.pick(500, 20_000), budget, Duration::from_secs(30), Arc::new(c05::run_interlock));
+    agg.merge(agg2);
+    let rep = Report {
+        level: "exploration",
+        rule: "one case = one value journey: a generated value (lists, options, pairs, maps, enum variants, nesting <= 3) with 0-12 labelled channel halves of 11 kinds (mpsc S/R, oneshot S/R, watch S/R, broadcast R, bin S/R, lr S/R) is sent over 1-3 connections in a row (re-sent by each receiving endpoint), 25% of the journeys with 8-16 byte receive buffers and 4-16 byte chunks; afterwards every received half and its counterpart at the origin are exercised concurrently. Non-trivial iff >= 2 halves or >= 2 hops. Distinct by hash(shape, hops, interleaving signature). Plus interlock runs (both halves of an lr / bin channel sent away).".into(),
+        explanation: "Label matrix: the value delivered through half k must be the one sent into counterpart k (value = label*1000 + direction), exactly the diagonal; a half that delivers nothing and no error by quiescence is a hang; every sent half must arrive, none twice; sending the second half of a single-connection channel must be refused; no PortData frame without ports.".into(),
+        assumptions: vec!["max_ports is large enough (64) for every journey: port exhaustion with wait=true is a wait by design and is not driven".into()],
+        exhaustive: false,
+        min_nontrivial: ctx.tier.pick(300, 3000),
+        extra: BTreeMap::new(),
     };
     finish(ctx, agg, rep)
 }
